@@ -68,6 +68,12 @@ pub fn run_chain(ext: &str, data: &[u8], with_plugins: bool, rep: &mut Rep, is_c
     let lim = alloc_limit(data.len());
     ensure!(st.max_alloc_parse <= lim, "parsing/rendering a {} byte {} input requested a single allocation of {} bytes", data.len(), ext, st.max_alloc_parse);
     ensure!(st.max_alloc_plugins <= lim, "plugins requested a single allocation of {} bytes for a {} byte {} input", st.max_alloc_plugins, data.len(), ext);
+    // many medium sized reservations (one per announced transfer, ...) add up: what the plugins hold at the same time
+    // stays below 256 MiB + 4096 x input length (building the plugins from the repository configs takes < 40 MiB)
+    ensure!(st.peak_live_plugins <= (256 << 20) + 4096 * data.len(), "plugins held {} bytes at the same time for a {} byte {} input", st.peak_live_plugins, data.len(), ext);
+    if std::env::var("VERIF_DEBUG").is_ok() {
+        eprintln!("peak_live_plugins {} for {} bytes", st.peak_live_plugins, data.len());
+    }
     rep.label_if(st.msgs > 0, "yielded_messages");
     rep.label_if(st.lifecycles > 1, "ge2_lifecycles");
     rep.nontrivial = st.msgs > 0 && !is_corpus_identical;
@@ -395,6 +401,9 @@ fn asc_line() -> impl Strategy<Value = String> {
         1 => (num(), num()).prop_map(|(t, c)| format!("   {} CANFD   {} Rx ErrorFrame", t, c)),
         1 => (num(), num()).prop_map(|(t, c)| format!("   {} {}  ErrorFrame", t, c)),
         2 => "// [0-9 ]{0,3}(BusMapping: CAN [0-9]{1,12} = [A-Za-z_]{0,8})?.{0,10}",
+        // frames and bus names whose length reaches the 16 bit message length
+        1 => (prop_oneof![60 => 20usize..600, 1 => 65_500usize..65_540, 1 => Just(65_520usize)], any::<bool>(), num()).prop_map(|(n, fd, t)| if fd { format!("   {} CANFD   1 Rx        1                                   1 0 8 {}{} x", t, n, " 00".repeat(n)) } else { format!("   {} 1  1             Rx   d {}{} x", t, n, " 00".repeat(n)) }),
+        1 => (prop_oneof![60 => 9usize..300, 1 => 65_490usize..65_530], 1u8..4).prop_map(|(n, id)| format!("//BusMapping: CAN {} = {}", id, "a".repeat(n))),
         1 => ".{0,40}"
     ]
 }
@@ -413,6 +422,7 @@ fn logcat_line() -> impl Strategy<Value = String> {
 }
 fn genlog_line() -> impl Strategy<Value = String> {
     prop_oneof![
+        2 => ("[0-9]{2}", prop::sample::select(vec!["", " ", "  ", "\t", "\u{a0}", "ä", "ää"])).prop_map(|(sec, tag)| format!("[2024-01-01 00:00:{}.000] [INF] [{}] blank or odd tag", sec, tag)),
         6 => ("[0-9]{4}-[0-9]{2}-[0-9]{2}", "[0-9]{2}:[0-9]{2}:[0-9]{2}(\\.[0-9]{1,9})?", "[A-Z]{0,4}", "[a-zA-Z0-9 ]{0,10}", ".{0,30}").prop_map(|(d, t, l, a, txt)| format!("[{} {}] [{}] [{}] {}", d, t, l, a, txt)),
         1 => ("(0000|1969|9999)-(00|01|12|13)-(00|01|31|32)", "(00|23|24|99):[0-9]{2}:[0-9]{2}").prop_map(|(d, t)| format!("[{} {}] [ERR] [app] boundary", d, t)),
         1 => ".{0,60}"
@@ -475,8 +485,17 @@ pub fn def(tier: Tier) -> PropertyDef {
         subs: vec![
             sub("structured_dlt", tier.pick(40_000, 1_000_000), (prop::collection::vec(m(), 1..25), prop::bool::weighted(0.15), prop::bool::weighted(0.6)), structured).rates(&[("yielded_messages", 0.7), ("serial_framing", 0.05)]).boxed(),
             sub("mutated_corpus", tier.pick(15_000, 400_000), (any::<u16>(), prop::collection::vec(mutop, 0..12), prop::bool::weighted(0.5)), mutated).rates(&[("yielded_messages", 0.7), ("corpus_dlt", 0.2), ("corpus_asc", 0.1), ("corpus_logcat", 0.1)]).shrink_iters(500).boxed(),
-            sub("plugin_protocols", tier.pick(20_000, 500_000), prop::collection::vec(crate::props::proto::pitem(), 1..40), plugin_protocols).rates(&[("yielded_messages", 0.9), ("someip_chunk_after_start", 0.2), ("transfer_data_after_start", 0.2)]).boxed(),
+            sub("plugin_protocols", tier.pick(20_000, 500_000), prop_oneof![
+                9 => prop::collection::vec(crate::props::proto::pitem(), 1..40),
+                // many announcements of transfers / segmented messages (each one may make the plugin reserve memory)
+                1 => prop::collection::vec(prop_oneof![
+                    3 => (any::<u8>(), any::<u8>(), any::<u8>(), 10u8..14, 10u8..14, any::<u8>()).prop_map(|(serial, name, size, pkgs, buf, width)| crate::props::proto::PItem::Flst { serial, name, size, pkgs, buf, width: width | 0x2a, be: false }),
+                    1 => (any::<u8>(), any::<u8>()).prop_map(|(id, hdr)| crate::props::proto::PItem::Nwst { id, hdr, n: 7, cs: 7, be: false }),
+                    1 => crate::props::proto::pitem(),
+                ], 60..200),
+            ], plugin_protocols).rates(&[("yielded_messages", 0.9), ("someip_chunk_after_start", 0.2), ("transfer_data_after_start", 0.2)]).boxed(),
             sub("binary_convert", tier.pick(320, 8_000), (0u8..3, prop::collection::vec(m(), 1..25), prop::collection::vec(crate::props::proto::pitem(), 1..30), any::<u16>()), binary_convert).rates(&[("exit_ok", 0.5), ("plugins_from_cli_paths", 0.3)]).shrink_iters(60).slow().boxed(),
+            sub("tag_flood", tier.pick(32, 200), (any::<bool>(), prop_oneof![1 => Just(999u16), 3 => any::<u16>()], any::<u8>()), tag_flood).shrink_iters(4).boxed(),
             sub("messy_traces", tier.pick(20_000, 500_000), (prop::collection::vec(ev(3), 1..120), prop::bool::weighted(0.3)), messy_bytes).boxed(),
             crate::fuzzing::fuzz_sub("chain_fast", "fuzz_chain_fast", tier.pick(3_000, 30_000)),
             crate::fuzzing::fuzz_sub("chain_plugins", "fuzz_chain_plugins", tier.pick(1_000, 10_000)),
@@ -600,6 +619,31 @@ fn binary_convert(v: &(u8, Vec<M>, Vec<crate::props::proto::PItem>, u16), rep: &
     ensure!(!stderr.contains("panicked"), "adlt {:?} panicked: {}", &args[..args.len() - 1], stderr.chars().take(600).collect::<String>());
     rep.label_if(status.success(), "exit_ok");
     rep.nontrivial = status.success() && !d.is_empty();
+    Ok(())
+}
+
+/// more tags than there are abbreviations (4 character application ids): 9999 numeric tags + non-ASCII ones
+fn tag_flood(v: &(bool, u16, u8), rep: &mut Rep) -> Result<(), String> {
+    let (genlog, n, extra) = v;
+    let n = 9_000 + *n as usize % 1_000; // 9000..9999 numeric tags
+    let line = |tag: &str| if *genlog { format!("[2024-01-01 00:00:00.000] [INF] [{}] m\n", tag) } else { format!("1.000 1 1 I {}: m\n", tag) };
+    let mut d = String::new();
+    d.push_str(&line("äää"));
+    for i in 1..=n {
+        d.push_str(&line(&format!("{:04}", i)));
+    }
+    for t in ["ééé", "ööö", "üüü", "ßßß"].iter().take(1 + *extra as usize % 4) {
+        d.push_str(&line(t));
+    }
+    rep.label_if(n == 9_999, "all_numeric_ids_taken");
+    let _ = take_panics();
+    let r = std::panic::catch_unwind(std::panic::AssertUnwindSafe(|| crate::chain::chain_opts(if *genlog { "log" } else { "txt" }, d.as_bytes(), false, 30_000)));
+    let panics = take_panics();
+    if !panics.is_empty() && panics.iter().all(|p| p.contains("PoisonError")) {
+        return Ok(());
+    }
+    ensure!(panics.is_empty() && r.is_ok(), "panic in the chain ({} lines with distinct tags): {}", n + 2, panics.join(" || "));
+    rep.nontrivial = true;
     Ok(())
 }
 
